@@ -5,9 +5,12 @@ id=$1; prop=$2; tier=${3:-quick}
 src=/verif/seeded/$id; [ -d $src ] || src=/tmp/seeded/$id
 cd /repo
 if ! git diff --quiet; then echo "/repo working tree not clean"; exit 2; fi
-git apply --3way $src/patch.diff >/dev/null 2>&1 || git apply $src/patch.diff || { echo "patch does not apply"; git checkout -- .; exit 2; }
+if ! git apply $src/patch.diff 2>/dev/null; then
+  git apply --3way $src/patch.diff >/dev/null 2>&1
+  if [ -n "$(git diff --name-only --diff-filter=U)" ] || git diff --quiet HEAD; then echo "patch does not apply"; git reset -q --hard HEAD; exit 2; fi
+fi
 git reset -q
-trap 'git -C /repo checkout -- . ; git -C /repo clean -fdq' EXIT
+trap 'git -C /repo reset -q --hard HEAD ; git -C /repo clean -fdq' EXIT
 cd /verif
 out=$(VERIF_SEED=${VERIF_SEED:-1} ./check $prop --tier $tier 2>&1); rc=$?
 echo "$out" | tail -6
